@@ -1401,6 +1401,9 @@ func FunExpr(query *Query, current Map, expr *sqlparser.FuncExpr, opts ...ExprOp
 				err = fmt.Errorf("too few arguments")
 				return err
 			}
+			// the arguments are evaluated here, after Exec's own wait: calls
+			// they start asynchronously have to be waited for as well
+			query.wg.Wait()
 			rs = slice[0]
 			return nil
 		})
